@@ -140,7 +140,7 @@ func materialize(a absVal, env *runEnv) interface{} {
 		if len(a.FRaw) > 0 && a.FRaw[0] == '{' {
 			json.Unmarshal(a.FRaw, &f)
 		}
-		r := vRec{}
+		r := vRec{env: env}
 		for k, v := range f {
 			gv := materialize(v, env)
 			switch k {
@@ -246,6 +246,17 @@ type vRec struct {
 	Name string
 	Html template.HTML
 	Any  interface{}
+	env  *runEnv
+}
+
+// Fail is a (value, error) method that fails: it records its call like the failing helper does.
+func (r vRec) Fail() (vRec, error) {
+	if r.env != nil {
+		r.env.mu.Lock()
+		r.env.calls = append(r.env.calls, probeCall{"fail", 1, nil})
+		r.env.mu.Unlock()
+	}
+	return vRec{Name: "n"}, errSentinel
 }
 
 var opaqueKinds = map[string]func() interface{}{
